@@ -2,7 +2,9 @@
 # usage: tools/reseed.sh <seed-id>...   (default: every directory under /verif/seeded)
 # Re-runs the checks recorded for each seeded change against a patched scratch copy of the
 # current /repo and rewrites the "checks" field of its meta.json ("first_pass" keeps the
-# verdict of the first run, before any strengthening).
+# verdict of the first run, before any strengthening). Re-run are the check of the property the
+# change was seeded under and the checks that caught it last time; a neighbouring check that
+# missed it before keeps its "missed" verdict without being run again.
 cd /verif
 ids="$@"; [ -z "$ids" ] && ids=$(ls seeded | grep -v '\.md$')
 for id in $ids; do
@@ -10,7 +12,7 @@ for id in $ids; do
   props=$(python3 - "$d/meta.json" <<'PY'
 import json,sys,re
 m=json.load(open(sys.argv[1]))
-ps=[m['breaks_property']]+re.findall(r'(C\d\d):', m.get('checks','')+' '+m.get('first_pass',''))
+ps=[m['breaks_property']]+re.findall(r'(C\d\d):CAUGHT', m.get('checks',''))
 out=[]
 for p in ps:
     if p not in out: out.append(p)
@@ -22,8 +24,11 @@ PY
 import json,sys
 p,res=sys.argv[1:3]
 m=json.load(open(p))
+import re
 m.setdefault('first_pass', m.get('checks',''))
-m['checks']=res
+ran=set(re.findall(r'(C\d\d):', res))
+kept=[v for v in m.get('checks','').split() if v.split(':')[0] not in ran and v.endswith(':missed')]
+m['checks']=' '.join([res]+kept)
 json.dump(m,open(p,'w'),indent=1)
 PY
   echo "$id: $res"
